@@ -12,7 +12,7 @@ META = dict(
     explanation='inductive element step (symx): from an arbitrary valid state, one real element __call__; z3 decides, in '
                 'cross-multiplied form, that GSNR, OSNR_ASE and SNR_NLI do not increase, that ROADM/fused/attenuation leave all '
                 'three unchanged, that an amplifier moves only OSNR_ASE and a non-Raman fibre only SNR_NLI',
-    bounds=['channels k<=3 (quick) / 4 (thorough)', 'concrete fibre types (SSMF 80 km, NZDF 120 km with lumped losses, SSMF 5 km), '
+    bounds=['channels k<=3 (quick) / 6 (thorough)', 'concrete fibre types (SSMF 80 km, NZDF 120 km with lumped losses, SSMF 5 km), '
             'per-channel power <= 10 mW', 'amplifier flat profile (tilt 0), all library type_defs', 'floats as reals',
             'GGN methods: 4 channels, computed_channels in {2+3, 1+4, 2, all}; efficiencies of the computed channels arbitrary in [0, 1e4]'],
     assumptions=['floats modelled as reals', 'pre-state satisfies I', 'Raman flag off',
@@ -103,7 +103,7 @@ def h_nli_sim_params(ctx, method):
 
 
 def jobs(tier):
-    ks = [1, 2, 3] if tier == 'quick' else [1, 2, 3, 4, 5]
+    ks = [1, 2, 3] if tier == 'quick' else [1, 2, 3, 4, 5, 6]
     P = ('C02',)
     js = []
     for k in ks[1:]:
